@@ -58,6 +58,7 @@ func replayCustom(c *Ctx, cs Case) {
 }
 
 func customCase(c *Ctx, ki int, spec, env string, argv []string) {
+	cvGC()
 	k := cvKinds[ki]
 	d := &ref.Decl{Opts: []ref.OptDecl{{Key: "c", Names: []string{"-c", "--cc"}, Flag: k.isBool}}, Args: []string{"C"}}
 	if k.primeOpposite {
